@@ -75,6 +75,16 @@ pub fn thread_cpu_ns(tid: i32) -> Option<u64> {
     Some(ts.tv_sec as u64 * 1_000_000_000 + ts.tv_nsec as u64)
 }
 
+/// CPU time consumed so far by the whole process (CLOCK_PROCESS_CPUTIME_ID through the raw system call), ns
+pub fn process_cpu_ns() -> u64 {
+    let mut ts = Timespec { tv_sec: 0, tv_nsec: 0 };
+    let r = unsafe { syscall(SYS_CLOCK_GETTIME, 2 as c_long, &mut ts as *mut Timespec) };
+    if r != 0 {
+        return 0;
+    }
+    ts.tv_sec as u64 * 1_000_000_000 + ts.tv_nsec as u64
+}
+
 /// The process's `clock_gettime`: the kernel's clock plus this thread's offset.
 ///
 /// # Safety
